@@ -158,6 +158,12 @@ def normalise(events):
                 r["i"] = [units(e["t"][0])]
                 out.append(r)
                 continue
+            if e["name"] == "errnorm":
+                r["name"] = "errnorm"
+                r["in"] = [int(e["prev_u"][0]), int(e["prop_u"][0]), int(e["prop_fx"][0])]
+                r["i"] = [int(v) for v in e["ints"]]
+                out.append(r)
+                continue
             if e["name"] != "finalize":
                 continue  # other markers are used by dedicated checks, not by the generic validator
             r["name"] = "finalize"
@@ -184,8 +190,10 @@ def normalise(events):
             r["in"] = []
         elif op in ("marg", "revert", "apply", "merge", "ident"):
             pass
+        elif op in ("read_std", "read_mean", "rms"):
+            pass
         else:
-            # read_mean, read_std, rms, logpdf, sample, to_derivative: no term is created by the generic validator
+            # logpdf, sample, to_derivative: no term is created by the generic validator
             if e.get("out"):
                 r["op"] = "opaque"
             else:
